@@ -619,7 +619,13 @@ def run_c10(tier, seed, replay=None):
         B = [["cond"] + [["eq", "q", v] for v in vb]] if rnd.random() < 0.7 else [["eq", "q", vb[0]]]
         first, second = (A, B) if rnd.random() < 0.6 else (B, A)
         k = len(cases)
-        outer = ["cond", first[0], second[0]] if rnd.random() < 0.7 else ["cond", ["conj"] + first, ["conj"] + second]
+        if rnd.random() < 0.6:
+            # built through Conde::from_vec from the bare goals: their streams are mature at once
+            first = [["condv"] + first[0][1:]] if first[0][0] == "cond" else first
+            second = [["condv"] + second[0][1:]] if second[0][0] == "cond" else second
+            outer = ["condv", first[0], second[0]]
+        else:
+            outer = ["cond", first[0], second[0]] if rnd.random() < 0.7 else ["cond", ["conj"] + first, ["conj"] + second]
         cases.append(mk_case([], ["q"], [["dfs", outer]], parts=(k + 1, k + 2), mode="bag"))
         cases.append(mk_case([], ["q"], [["dfs"] + first], mode="bag"))
         cases.append(mk_case([], ["q"], [["dfs"] + second], mode="bag"))
